@@ -980,6 +980,18 @@ def _jschunk_rest(cx, rep, p):
     bl = [n for n in walk_no_nested(bulk) if isinstance(n, ast.For)]
     okb = len(bl) == 1 and any(isinstance(c, ast.Call) and call_name(c) == 'self.process_line' for c in ast.walk(bl[0]))
     rep.decide(okb, 'bulk lines', bl[0] if bl else bulk, 'bulk reading processes every line', 'bulk reading does not process every line')
+    # the empty string after the final line break is dropped once: further empty lines at the end are records of their own
+    pops = [c for c in walk_no_nested(bulk) if isinstance(c, ast.Call) and isinstance(c.func, ast.Attribute) and c.func.attr == 'pop' and not c.args]
+    for c in pops:
+        par = c
+        while par is not None and not isinstance(par, (ast.While, ast.For, ast.If, ast.FunctionDef)):
+            par = getattr(par, 'parent', None)
+        if isinstance(par, (ast.While, ast.For)):
+            rep.violated('bulk trailing line', c, 'every trailing empty line is removed in a loop: a table whose last records are empty (single-column input ending in blank lines) loses them in bulk mode, while stream mode keeps them')
+        elif isinstance(par, ast.If):
+            rep.holds('bulk trailing line', c, 'only the one empty string after the final line break is dropped')
+        else:
+            rep.undecided('bulk trailing line', c, 'unconditional pop of the last line')
     # process_line -> process_line_polymorphic dispatch
     init = p.func('rbql_csv', 'CSVRecordIterator.__init__')
     disp = [n for n in walk_no_nested(init) if isinstance(n, ast.Assign) and dotted(n.targets[0]) == 'self.process_line_polymorphic']
